@@ -311,6 +311,24 @@ class Driver:
                          "the next line had been sent" % (line, time.monotonic() - t0, late[0].raw))
             else:
                 self.bad("framing:no-error-reply", "%r was neither executed nor answered with an error" % line)
+        # "empty lines are ignored" - and do not hold back what follows them in the same segment
+        for k, blob in enumerate([b"\r\nPING :after-blank\r\n", b"\r\n\r\n\r\nPING :after-blanks\r\n", b"\nPING :after-lf\n",
+                                  b"PING :first\r\n\r\nPING :second\r\n", b"\r\nFROBNICATE\r\n"]):
+            a.send_raw(blob)
+            want = blob.count(b"PING") or 1
+            got = []
+            try:
+                while len([m for m in got if m.verb in ("PONG", "421")]) < want:
+                    got += a.read_until(lambda m: m.verb in ("PONG", "421"), 2.5)
+            except wire.Timeout as ex:
+                got += getattr(ex, "lines", [])
+                self.bad("framing:held-back-by-empty-line", "%r sent in one segment: %d of %d answers within 2.5 s of silence (%s)"
+                         % (blob, len([m for m in got if m.verb in ("PONG", "421")]), want, [m.raw for m in got][:2]))
+                a.ping("flush", 5.0)
+            except wire.Closed:
+                self.bad("framing:lonely-closed", "connection closed after %r" % blob)
+                return
+            self.case("lonely:after-empty-line:%d" % k, repr(blob))
         a.close()
         o.close()
 
